@@ -242,7 +242,12 @@ func init() {
 				}
 			}
 			if !hasClose {
-				panic(engineError{"http.NewRequest: body without Close (wrap it in io.NopCloser in the code under test?)"})
+				// net/http wraps a plain reader in io.NopCloser
+				iop := i.prog.ImportedPackage("io")
+				if iop == nil || iop.Func("NopCloser") == nil {
+					panic(engineError{"http.NewRequest: io.NopCloser not available"})
+				}
+				b, _ = call(i, fr, 0, iop.Func("NopCloser"), []value{b}).(iface)
 			}
 			rs[i.structField("net/http", "Request", "Body")] = b
 		}
